@@ -254,7 +254,7 @@ func (d *Driver) Run() int {
 				// render only the queries of this property
 				var keep []*Query
 				for _, q := range fx.queries {
-					if q.IsCover || hasTag(q.Tags, d.Prop) {
+					if q.IsCover || hasTag(q.Tags, d.Prop) || d.frontendQuery(q) {
 						keep = append(keep, q)
 					}
 				}
@@ -264,7 +264,7 @@ func (d *Driver) Run() int {
 		}()
 		n := 0
 		for _, q := range fx.queries {
-			if d.Prop != "" && !q.IsCover && !hasTag(q.Tags, d.Prop) {
+			if d.Prop != "" && !q.IsCover && !hasTag(q.Tags, d.Prop) && !d.frontendQuery(q) {
 				continue
 			}
 			d.queries = append(d.queries, q)
@@ -474,7 +474,7 @@ func (d *Driver) rtJobs(loader *Loader) ([]*job, error) {
 			if d.OnlyFunc != "" && d.OnlyFunc != k {
 				continue
 			}
-			if !contractMentions(fc, d.Prop) && !callsTagged(in.pkg, k, in.cs, d.Prop) {
+			if !contractMentions(fc, d.Prop) && !callsTagged(in.pkg, k, in.cs, d.Prop) && !(d.frontendErrorContract() && in.v == "pigeon.go" && contractMentions(fc, "C11")) {
 				continue
 			}
 			if in.v == "pigeon.go" && strings.HasPrefix(k, "parser.parse") {
@@ -599,6 +599,24 @@ func absentNodeKinds(pkg *Pkg) map[string]bool {
 	return absent
 }
 
+// C13 (the tool never crashes: a parse error is a diagnostic and a non-zero exit) depends on the error contract of
+// the front-end's OWN parser: the runtime copy inside pigeon.go must contain panics and return a non-nil error with a
+// nil value exactly as C11 says of every generated parser. For C13 the C11 obligations are therefore generated for the
+// pigeon.go pseudo-instantiation (only for it) and count as obligations of C13.
+func (d *Driver) frontendErrorContract() bool { return d.Prop == "C13" }
+
+func (d *Driver) frontendQuery(q *Query) bool {
+	if !d.frontendErrorContract() || !strings.HasPrefix(q.Obligation, "rt[pigeon.go]:") {
+		return false
+	}
+	for _, t := range q.Tags {
+		if t == "C11" {
+			return true
+		}
+	}
+	return false
+}
+
 func typeDeclHash(pkg *Pkg) string {
 	var buf bytes.Buffer
 	for _, f := range pkg.Files {
@@ -685,6 +703,26 @@ func (d *Driver) repoJobs(loader *Loader, tg string) ([]*job, error) {
 	for _, f := range d.contractFiles(tg) {
 		if err := cs.LoadFile(f, pkg.Flags); err != nil {
 			return nil, err
+		}
+	}
+	// C19 (generation is a function of the grammar and the flags only): besides map-order independence of the
+	// functions whose postconditions say so, NO function on the generation path (packages ast and builder) may keep
+	// state between builds or write outside its declared frame: the frame obligations of every function under contract
+	// in these two packages are obligations of C19 as well (and so is staying inside the verifiable subset).
+	if tg == "ast" || tg == "builder" {
+		for _, fc := range cs.Funcs {
+			if fc.Trusted {
+				continue
+			}
+			has := false
+			for _, t := range fc.FrameTag {
+				if t == "C19" {
+					has = true
+				}
+			}
+			if !has {
+				fc.FrameTag = append(fc.FrameTag, "C19")
+			}
 		}
 	}
 	var jobs []*job
